@@ -263,7 +263,7 @@ def strict(run, p):
                 ok = err is None or (isinstance(err, ast.Constant) and err.value == 'strict')
                 run.ob('C12-STRICT', '%s::%s::%s' % (f.rel, f.short, norm(x.args[0]) if x.args else '?'), ok,
                        '%s opens %s with errors=%s' % (f.short, norm(x.args[0]) if x.args else '?', norm(err) if err is not None else 'strict (default)'), fn=f, node=x)
-    run.floor('C12-STRICT', n, 7)
+    run.floor('C12-STRICT', n, 2)
 
 
 def exclprov(run, p):
